@@ -2,6 +2,7 @@ import CoapVerif.Model.Server
 import CoapVerif.Model.Parse
 /- Line-protocol driver for C10 (see harness/server.c for the line format). -/
 -- DRIVER-OPS: srv => Coap.Driver.Server.step
+-- DRIVER-OPS: srvq => Coap.Driver.Server.stepq
 namespace Coap.Driver.Server
 open Coap Coap.Server
 
@@ -40,13 +41,13 @@ def natList (s : String) : Option (List Nat) :=
 def parseSpecial (s : String) : Option (Option Special) :=
   if s = "-" then some none else
   match s.splitOn ":" with
-  | [m, f] => do let m ← m.toNat?; let f ← f.toNat?; pure (some ⟨m, f⟩)
+  | [m, f] => do let m ← m.toNat?; let f ← f.toNat?; if m ≥ 128 then none else pure (some ⟨m, f⟩)
   | _ => none
 
 def parseProxy (s : String) : Option (Option Proxy) :=
   if s = "-" then some none else
   match s.splitOn ":" with
-  | [m, f, n] => do let m ← m.toNat?; let f ← f.toNat?; let n ← bytesOfHex n; pure (some ⟨m, f, n⟩)
+  | [m, f, n] => do let m ← m.toNat?; let f ← f.toNat?; let n ← bytesOfHex n; if m ≥ 128 then none else pure (some ⟨m, f, n⟩)
   | _ => none
 
 def parseRes (s : String) : Option (List Res) :=
@@ -55,8 +56,13 @@ def parseRes (s : String) : Option (List Res) :=
     match r.splitOn ":" with
     | [p, m, f, o] => do
       let p ← bytesOfHex p; let m ← m.toNat?; let f ← f.toNat?; let o ← o.toNat?
+      if m ≥ 128 then none else
       pure ⟨p, m, f % 2 ^ 32 / 2 * 2, o != 0⟩   -- COAP_RESOURCE_FLAGS_RELEASE_URI (bit 0) is masked by the harness
     | _ => none
+
+/-- the implementation's escape choice cut down to what RFC 3986 allows (= the choice itself when it is legal:
+C10.escape_restrict_id) -/
+def specEsc : S.Esc := S.Esc.restrict ⟨Generated.Server.unescPath, Generated.Server.unescQuery⟩
 
 def parseVerdict (s : String) : Option Verdict :=
   match s.splitOn ":" with
@@ -93,8 +99,46 @@ def step (args : List String) : String :=
     match Coap.M.parse .udp bs with
     | .ok msg =>
       let rq : Request := ⟨mc, msg, v, pu⟩
-      "M " ++ showOutcome (M.serverDecision cfg tbl rq) ++ " | S " ++
-        showOutcome (S.serverSpec ⟨Generated.Server.unescPath, Generated.Server.unescQuery⟩ cfg tbl rq) showReplyS
+      "M " ++ showOutcome (M.serverDecision cfg (M.implTable tbl) rq) ++ " | S " ++
+        showOutcome (S.serverSpec specEsc cfg tbl rq) showReplyS
     | _ => "M malformed"
+
+/-! ### `srvq`: a sequence of datagrams from several peers at one context (see harness/server.c, stepq) -/
+def parseCfg (mpr mts known unk prx res : String) : Option (Cfg × Table) := do
+  let mpr ← mpr.toNat?
+  let mts ← mts.toNat?
+  let known ← natList known
+  let unk ← parseSpecial unk
+  let prx ← parseProxy prx
+  let res ← parseRes res
+  if mts < 8 then none else pure (⟨mpr != 0, mts, known⟩, ⟨unk, prx, res⟩)
+
+/-- none: a malformed word; some none: a datagram that does not parse -/
+def parseSteps : List String → Option (Option (List Ev))
+  | [] => some (some [])
+  | peer :: verdict :: pu :: dst :: hex :: rest => do
+    let peer ← peer.toNat?
+    if peer > 15 then none else
+    let (defer, v) ← (if verdict = "defer" then some (true, (⟨0, []⟩ : Verdict)) else (parseVerdict verdict).map fun v => (false, v))
+    let pu ← parsePU pu
+    let mc ← (if dst = "u" then some false else if dst = "m" then some true else none)
+    let bs ← bytesOfHex hex
+    let more ← parseSteps rest
+    match Coap.M.parse .udp bs, more with
+    | .ok msg, some evs => pure (some (⟨peer, defer, ⟨mc, msg, v, pu⟩⟩ :: evs))
+    | _, _ => pure none
+  | _ => none
+
+def stepq (args : List String) : String :=
+  match args with
+  | mpr :: mts :: known :: unk :: prx :: res :: steps =>
+    if steps.isEmpty ∨ steps.length > 40 then "bad-op" else
+    match parseCfg mpr mts known unk prx res, parseSteps steps with
+    | some (cfg, tbl), some (some evs) =>
+      "M " ++ String.intercalate " ;; " ((M.serverSeq cfg (M.implTable tbl) Hist.empty evs).map (showOutcome ·)) ++ " | S " ++
+        String.intercalate " ;; " ((S.seqSpec specEsc cfg tbl Hist.empty evs).map (showOutcome · showReplyS))
+    | some _, some none => "M malformed"
+    | _, _ => "bad-op"
+  | _ => "bad-op"
 
 end Coap.Driver.Server
